@@ -122,6 +122,9 @@ class SBool:
     def __format__(self, spec):
         return PLACEHOLDER
 
+    def __deepcopy__(self, memo):
+        return self
+
 
 def mk_bool(t, src=None):
     if _real_isinstance(t, _real_bool):
@@ -470,6 +473,12 @@ class SInt:
 
     def __format__(self, spec):
         return PLACEHOLDER
+
+    def __deepcopy__(self, memo):
+        return self  # a value
+
+    def __copy__(self):
+        return self
 
     # ---- comparisons
     def _cmp(self, o, op):
